@@ -211,6 +211,12 @@ class CompilerState(CoderState):
     def cancel_bitmap(self):
         self.add_statement(StateMethodCall(get_func_name()))
 
+    def cancel_new_refvals(self):
+        # 203000 must also take effect when the compiled template is executed,
+        # where the new reference values are held by the runtime state
+        super(CompilerState, self).cancel_new_refvals()
+        self.add_statement(StateMethodCall(get_func_name()))
+
     def cancel_all_back_references(self):
         self.add_statement(StateMethodCall(get_func_name()))
 
